@@ -123,20 +123,25 @@ def expected_sections(spec, vkey, wrap):
         rows = []
         for idx, (a, b) in enumerate(zip(lo.section_items(orig, k), lo.section_items(upd, k))):
             m, u, v, d = a.original_mnemonic, a.unit, a.value, a.descr
+            replaced = False       # the writer puts a new item (upper-case mnemonic) in place of this one
             if k == "Well" and a.mnemonic in ("STRT", "STOP", "STEP"):
                 u, v = b.unit, b.value
             if k == "Curves" and idx == 0:
                 u = b.unit
             if k == "Version" and a.mnemonic == "VERS":
                 m, u, v, d = VERS_ITEMS[vkey]
+                replaced = True
             if k == "Version" and a.mnemonic == "WRAP" and wrap is not None:
                 m, u, v, d = WRAP_ITEMS[wrap]
-            rows.append([m, u, lo.standardize(v, u) if k in ("Well", "Parameter") else v, d])
+                replaced = True
+            rows.append([m, u, lo.standardize(v, u) if k in ("Well", "Parameter") else v, d, replaced])
         out[k] = rows
     return out, orig.other
 
 
-def oracle(run, spec, vfloat, vkey, wrap, c, text, case):
+def oracle(run, spec, vfloat, vkey, wrap, c, text, case, pre=None):
+    """`pre`: the written object was itself obtained by reading (mnemonic_case=pre) the 2.0 output of the built object: the
+    expected items are the same, the mnemonics mapped by `pre` first"""
     import lasio
     from lasio.reader import SectionParser
     exp, exp_other = expected_sections(spec, vkey, wrap)
@@ -146,7 +151,8 @@ def oracle(run, spec, vfloat, vkey, wrap, c, text, case):
         run.fail("readable", case, {"exc": repr(e)})
         return
     P = SectionParser("~W", version=2.0)
-    f = casef(c)
+    f0, f1 = casef(c), casef(pre or "preserve")
+    f01 = lambda s_: f0(f1(s_))
     for k in lo.SECTIONS:
         gi = lo.section_items(got, k)
         if len(gi) != len(exp[k]):
@@ -154,7 +160,8 @@ def oracle(run, spec, vfloat, vkey, wrap, c, text, case):
                                           "origs": [r[0] for r in exp[k]], "got": [i.original_mnemonic for i in gi]})
             continue
         for idx, (r, g) in enumerate(zip(exp[k], gi)):
-            m, u, v, d = r
+            m, u, v, d, replaced = r
+            f = f0 if replaced else f01
             if k == "Curves":
                 ev = str(v)
             elif k in ("Version", "Well") and f(m).upper() in ("API", "UWI"):
@@ -188,6 +195,21 @@ def spec_in_domain(spec):
     return lo.other_ok(las.other)
 
 
+def reread_in_domain(spec):
+    """second-generation objects (read from lasio's own output, written again): a blank mnemonic is only in the property's
+    domain 'on lines with no further period'; a numeric value that read() turned into a float is printed with a period by the
+    second write (`. 145151824474974882991` -> 1.4515182447497488e+20), so such items leave the domain"""
+    from . import c08
+    las = lo.build(spec)
+    for k in ("Version", "Well", "Parameter"):
+        for a in lo.section_items(las, k):
+            if str(a.original_mnemonic).strip() == "":
+                e8, _ = c08.oracle(str(a.value))
+                if e8[0] == "flt":
+                    return False
+    return True
+
+
 def nontrivial(spec, vkey):
     for k, key in (("version", "Version"), ("well", "Well"), ("params", "Parameter")):
         items = spec.get(k, [])
@@ -210,7 +232,7 @@ def check_spec(run, spec, vfloat, vkey, wrap, cases, tag, pend, in_domain=None, 
     if in_domain is None:
         in_domain = spec_in_domain(spec)
     if oracle_on is None:
-        oracle_on = in_domain and reread is None
+        oracle_on = in_domain and (reread is None or reread_in_domain(spec))
     case = {"spec": spec, "version": vkey, "wrap": wrap}
     if reread is None:
         las, text, exc = real_write(spec, vfloat, wrap)
@@ -268,7 +290,7 @@ def check_spec(run, spec, vfloat, vkey, wrap, cases, tag, pend, in_domain=None, 
                          {"op": "wr.readsection", "version": vkey, "kind": k, "case": c, "lines": ls},
                          real_read_section(k, vfloat, ls, c), in_domain))
         if oracle_on:
-            oracle(run, spec, vfloat, vkey, wrap, c, text, dict(case, mnemonic_case=c))
+            oracle(run, spec, vfloat, vkey, wrap, c, text, dict(case, mnemonic_case=c), pre=reread)
     c0 = cases[0]
     for k in lo.SECTIONS:
         for ln in parts.get(k, []):
@@ -394,7 +416,7 @@ def run(run):
     for i in range(run.budget(150, 3000)):
         spec = lo.gen_spec(run.rng)
         vfloat, vkey = VERSIONS[i % 2]
-        check_spec(run, spec, vfloat, vkey, [None, True, False][i % 3], [CASES[i % 3]], "reread", pend, reread=CASES[(i // 2) % 3])
+        check_spec(run, spec, vfloat, vkey, [None, True, False][i % 3], CASES, "reread", pend, reread=CASES[(i // 2) % 3])
         maybe_flush()
     # ~Version without WRAP / VERS, duplicated VERS / WRAP: KeyError for wrap=None, append instead of replace
     for i, (dele, extra) in enumerate([(["WRAP"], []), (["VERS"], []), (["WRAP", "VERS"], []), ([], [["WRAP", "", ["s", "YES"], "second"]]),
@@ -432,7 +454,7 @@ def search(run, disagreements):
             return
 
 
-def still_fails(spec, vkey, wrap, c):
+def still_fails(spec, vkey, wrap, c, reread=None):
     class R:
         failures = []
 
@@ -445,10 +467,23 @@ def still_fails(spec, vkey, wrap, c):
     try:
         if not spec_in_domain(spec):
             return None
-        las, text, exc = real_write(spec, vfloat, wrap)
+        if reread is None:
+            las, text, exc = real_write(spec, vfloat, wrap)
+        else:
+            import lasio
+            _, text0, _ = real_write(spec, 2.0, None)
+            if text0 is None:
+                return None
+            las = lasio.read(text0, mnemonic_case=reread)
+            s_ = io.StringIO()
+            las.write(s_, version=vfloat, **({} if wrap is None else {"wrap": wrap}))
+            text = s_.getvalue()
         if text is None:
             return None
-        oracle(r, spec, vfloat, vkey, wrap, c, text, {"spec": spec, "version": vkey, "wrap": wrap, "mnemonic_case": c})
+        case = {"spec": spec, "version": vkey, "wrap": wrap, "mnemonic_case": c}
+        if reread is not None:
+            case["reread"] = reread
+        oracle(r, spec, vfloat, vkey, wrap, c, text, case, pre=reread)
     except Exception:
         return None
     return r.failures[0] if r.failures else None
@@ -459,6 +494,7 @@ def shrink(run, f):
     if "spec" not in c or "mnemonic_case" not in c:
         return f
     spec, vkey, wrap, mc = c["spec"], c["version"], c.get("wrap"), c["mnemonic_case"]
+    rr = c.get("reread")
     best = f
     changed = True
     while changed:
@@ -469,7 +505,7 @@ def shrink(run, f):
                     continue
                 cand = dict(spec)
                 cand[k] = spec[k][:i] + spec[k][i + 1:]
-                g = still_fails(cand, vkey, wrap, mc)
+                g = still_fails(cand, vkey, wrap, mc, rr)
                 if g:
                     spec, best, changed = cand, g, True
                     break
@@ -477,7 +513,7 @@ def shrink(run, f):
             if spec.get(k):
                 cand = dict(spec)
                 cand[k] = "" if k == "other" else {}
-                g = still_fails(cand, vkey, wrap, mc)
+                g = still_fails(cand, vkey, wrap, mc, rr)
                 if g:
                     spec, best, changed = cand, g, True
     return best
@@ -488,7 +524,7 @@ def replay(run, payload):
     if "spec" not in c:
         return True
     cs = [c["mnemonic_case"]] if "mnemonic_case" in c else CASES
-    return all(still_fails(c["spec"], c["version"], c.get("wrap"), mc) is None for mc in cs)
+    return all(still_fails(c["spec"], c["version"], c.get("wrap"), mc, c.get("reread")) is None for mc in cs)
 
 
 LEVEL_TEXT = ("Machine-checked Lean 4 theorems about an executable model of the header part of lasio.writer.write (value normalisation, "
